@@ -1,7 +1,7 @@
 """C02 - operator tables build the tree dictated by precedence and associativity."""
 from contracts import optable, optable_ref, core, bind, segments
 from pyvc.report import Report
-from .common import run_fragments
+from .common import run_fragments, dependency_layer
 from . import wiring
 
 
@@ -46,4 +46,5 @@ def run(tier, seed):
                            f'token sequences up to length {maxlen} over 6 tables (shared prefix/infix spellings, non-associative rows, prefix looser/tighter than infix)')
     rep.assumptions.append('rowkind: a row has ONE kind, so entries of equal precedence have equal kind and a postfix row shares its precedence with no prefix / infix row (OperatorTable.create, decided by CreateC)')
     rep.assumptions.append('child value typing: what OperatorTable.create builds (Apply(operators, tagger)) returns (row, kind, operator) triples resp. (row, operator) pairs - decided by CreateC + Apply contract')
+    dependency_layer(rep, tier)
     return rep.finish()
